@@ -132,7 +132,11 @@ func gen(r *verifsim.Rng, tier string) (any, hx.Sched) {
 	s.MeanGap = verifsim.Pick(r, []int64{30, 100, 300, 1000, 10000})
 	s.FocusWeight = verifsim.Pick(r, []int32{1, 10, 100, 1000})
 	s.MaxSteps = 2000000
-	s.MapMode = verifsim.MapSorted
+	// Go randomises map iteration: a third of the runs iterate maps in a seeded
+	// pseudo-random order per loop (MapPerm), so that logic which silently relies on
+	// an order (cache keys built by ranging over the type-argument map, say) meets all orders
+	s.MapMode = verifsim.Pick(r, []int{verifsim.MapSorted, verifsim.MapSorted, verifsim.MapPerm})
+	s.MapSeed = r.Uint64()
 	return w, s
 }
 
